@@ -35,7 +35,7 @@ def gen(tier, rng, shard, nshards):
         if rng.random() < 0.55:
             yield {"mode": "svd", "m": m, "n": n, "dt": dt, "k": k, "kmode": kmode, "seed": S.seed(rng),
                    "alg": S.pick(rng, [OMIT, "Auto", "DenseSVD", "Lanczos", "Lanczos"]),
-                   "kind": S.pick(rng, ["Dense", "Dense", "Generic", "Identity", "Diagonal", "Product", "SelfAdjoint", "SelfAdjoint", "PSD"])}
+                   "kind": S.pick(rng, ["Dense", "Dense", "Generic", "Identity", "Diagonal", "Product", "SelfAdjoint", "SelfAdjoint", "PSD", "DiagonalZero"])}
         else:
             yield {"mode": "pinv", "m": m, "n": n, "dt": dt, "seed": S.seed(rng), "alg": S.pick(rng, [OMIT, "Auto", "LSTSQ", "CG", "CG"]),
                    "wide_rhs": bool(rng.random() < 0.25),
@@ -47,6 +47,15 @@ def operator(case, rng):
     m, n, dt = case["m"], case["n"], case["dt"]
     kind = case["kind"]
     r = min(m, n)
+    if kind == "DiagonalZero":
+        # a rank-deficient diagonal operator (exactly zero entries): U and V are still orthonormal, Sigma has zeros
+        n = m
+        vals = [float(x) for x in rng.permutation(np.linspace(1.0, 4.0, n)) * rng.choice([-1.0, 1.0], size=n)]
+        for j in rng.choice(n, size=max(1, n // 3), replace=False):
+            vals[int(j)] = 0.0
+        if dt in P.CPLX:
+            vals = [{"re": v, "im": float(rng.integers(-1, 2)) if v != 0 else 0.0} for v in vals]
+        return {"k": "Diagonal", "n": n, "dt": dt, "vals": vals}
     if kind in ("Identity", "Diagonal", "ScalarMul", "Permutation"):
         n = m
         if kind == "Identity":
@@ -129,7 +138,7 @@ def run_svd(ctx, case, A, M, eps, preds):
         ctx.call(svd, cola.ops.Dense(np.array([[2.0, 0.0, 0.0], [0.0, 1.0, 0.0]], dtype=M.dtype)), 1, "LM", alg)
         preds = dict(preds, alg_object_reused=True)
     out = ctx.call(svd, A, k) if alg is None else ctx.call(svd, A, k, "LM", alg)
-    krylov = case["alg"] == "Lanczos"
+    krylov = case["alg"] == "Lanczos" and case["kind"] != "DiagonalZero"  # (the Diagonal rule is structural whatever the algorithm)
     preds = dict(preds, k_class="all" if k == r else "partial")
     if is_err(out):
         ctx.check("svd-returns", False, site="svd", preds=preds, detail={"error": repr(out)})
